@@ -237,7 +237,12 @@ class DQN(RLAlgorithm):
 
             action_mask = torch.ones((batch_size, self.action_dim), device=device)
 
-        return self._get_action(torch_obs, epsilon, action_mask).cpu().numpy()
+        # Act with the running statistics of normalisation layers, as the other learners do:
+        # batch statistics would make an action depend on the other observations in the call
+        self.actor.eval()
+        action = self._get_action(torch_obs, epsilon, action_mask).cpu().numpy()
+        self.actor.train()
+        return action
 
     def _get_action(
         self, obs: TorchObsType, epsilon: torch.Tensor, action_mask: torch.Tensor
